@@ -509,7 +509,28 @@ func normGoroutine(h string) string {
 // library frames whose innermost non-runtime frame is library code (not the
 // transport's Read and not harness callback code) is blocked or spinning
 // inside the library.
+// ClassifyHang reports the goroutines that sit inside the library and make no progress: two stack dumps
+// are taken a while apart, and only a goroutine that is found in both at the same library function counts
+// (on a loaded machine a watchdog can fire while a goroutine is merely slow; such a goroutine has moved on
+// by the second dump).
 func ClassifyHang() (dump string, libBlocked []string) {
+	d1, b1 := classifyOnce()
+	time.Sleep(1500 * time.Millisecond)
+	_, b2 := classifyOnce()
+	still := map[string]bool{}
+	for _, x := range b2 {
+		still[x] = true
+	}
+	for _, x := range b1 {
+		if still[x] {
+			libBlocked = append(libBlocked, x[strings.Index(x, "\x00")+1:])
+		}
+	}
+	return d1, libBlocked
+}
+
+// classifyOnce: entries are "goroutine id\x00state in function".
+func classifyOnce() (dump string, libBlocked []string) {
 	buf := make([]byte, 1<<22)
 	n := runtime.Stack(buf, true)
 	dump = string(buf[:n])
@@ -534,7 +555,11 @@ func ClassifyHang() (dump string, libBlocked []string) {
 				if k := strings.LastIndex(fn, "("); k > 0 {
 					fn = fn[:k]
 				}
-				libBlocked = append(libBlocked, normGoroutine(lines[0])+" in "+fn)
+				id := lines[0]
+				if k := strings.Index(id, " ["); k > 0 {
+					id = id[:k]
+				}
+				libBlocked = append(libBlocked, id+"\x00"+normGoroutine(lines[0])+" in "+fn)
 			}
 			break
 		}
